@@ -404,6 +404,10 @@ def judge(sc, run, world, callers, mon, lost, q_stats):
     for c in callers:
         if c.error is not None:
             v7.append(V("C07", "caller-crashed", f"caller {c.id} ended with {c.error}", **base))
+        if getattr(c, "spurious_cancel", None):
+            pid = "C12" if is_h2(kind) else "C07"
+            (v12 if pid == "C12" else v7).append(V(pid, "sibling-cancelled", f"{kind}: caller {c.id}, which nobody cancelled, ended with a cancellation ({c.spurious_cancel}): "
+                                                  "another caller's cancellation was handed on to it instead of its own request running to completion", **base))
     tags = [kind, f"N={sc['max_connections']}", f"callers={len(callers)}", f"origins={sc['n_origins']}", "runtime-" + (sc.get("runtime") or "asyncio")]
     if world.fired_faults:
         tags.append("fault-fired")
